@@ -154,6 +154,31 @@ def _series_nodes():
     return _NODES
 
 
+def judge_fine(case, col):
+    """The ring at a very large explicit segment count must enclose the equal share as well: |A(k)/ideal - 1| <=
+    tol(res) + 0.02/k^2, k = 1000 and 3001 (arithmetic that accumulates along an edge degrades with k instead of
+    converging)."""
+    a5 = _a5()
+    cell = int(case["cell"], 16)
+    res = refids.res_of(cell)
+    ideal = 4 * math.pi / refids.ncells(res)
+    centre = guarded(a5.cell_to_lonlat, cell, kind="cell_to_lonlat_raised", case=case)
+    TOL = tol(res)
+    for k in case.get("ks", (1000, 3001)):
+        e = refgeo.ring_area(_ring(cell, k, case), res, centre) / ideal - 1
+        col.measure("fine_ring_area_rel_err", abs(e), {"cell": case["cell"], "k": k})
+        if abs(e) > TOL + 0.02 / (k * k):
+            raise Violation("cell_area_differs_from_equal_share", dict(case, fine=True), observed=f"ring of {k} segments per edge: relative error {e:.3e}",
+                            expected=f"|error| <= {TOL:.2e} + 0.02/k^2")
+    col.case({"cell": case["cell"], "fine": True}, nontrivial=True, classes=["fine_ring", f"res{res:02d}"])
+
+
+def stage_fine_rings(ctx):
+    strat = st.builds(lambda t: {"cell": hex(refids.enc(*t)), "fine": True}, gens.cell_tuple(20, 29))
+    deep = st.builds(lambda t: {"cell": hex(refids.enc(*t)), "fine": True}, gens.cell_tuple(27, 29))
+    hyp_drive(ctx, st.one_of(strat, deep, deep), judge_fine, 5 if ctx.tier == "quick" else 120)
+
+
 def stage_series_nodes(ctx):
     """Deep cells on and next to the latitudes where terms of a trigonometric latitude series change sign: a series that
     is truncated, reordered or summed differently shows its largest relative change there, in bands far thinner than
@@ -172,8 +197,11 @@ def stage_series_nodes(ctx):
 
 def plan(tier):
     return [Stage("enum", 16, stage_enum, cost=8), Stage("meta", 1, stage_meta), Stage("hyp", 16, stage_hyp, cost=8),
-            Stage("boundary", 16, stage_boundary, cost=7), Stage("series_nodes", 16, stage_series_nodes, cost=6)]
+            Stage("boundary", 16, stage_boundary, cost=7), Stage("series_nodes", 16, stage_series_nodes, cost=6),
+            Stage("fine_rings", 16, stage_fine_rings, cost=6)]
 
 
 def replay(rec, col):
+    if rec["case"].get("fine"):
+        return judge_fine(rec["case"], col)
     judge(rec["case"], col)
